@@ -6,7 +6,7 @@
  *   (iii) eav_is_email(mode m) == is_m_email, with the mode selected before setup, after an earlier setup of another
  *         mode, and unaffected by writing eav->rfc without eav_setup
  */
-#include "../mc/mc.h"
+#include "corpus.h"
 #include "../ref/ref_idn.h"
 #include <eav.h>
 #include <eav/auto_tld.h>
@@ -270,6 +270,12 @@ static void l4_quads(long shard, void *arg) {
     }
 }
 
+/* ---------- L5: the long / alternative-spelling corpora (U-label domains beyond 255 bytes, soft-hyphen padding, alternative dots,
+ * label-length tails, maximal literals + junk) ---------- */
+static int L5PH;
+static void l5_emit(const unsigned char *s, size_t n, void *arg) { (void)arg; check_email("L5corpus", s, n); MC_ADD(C_L3, 1); }
+static void l5_shard(long shard, void *arg) { (void)arg; corpus_run(L5PH, shard, l5_emit, NULL); }
+
 static int do_replay(void) {
     mc_replay_t r; if (mc_load_replay(mc_replay, &r)) return 2;
     mc_replay_hit = 0; check_email(r.sub, r.in, (size_t)r.len);
@@ -291,6 +297,9 @@ int main(int argc, char **argv) {
     memset(&L4E, 0, sizeof L4E); L4E.A = SIGLIT; L4E.nA = 7; L4E.N = mc_thorough ? 8 : 7; L4E.k = 2; L4E.fn = l4_cb;
     mc_parallel("L4: all bracket contents over {1 0 a : . IPv6: 25}", mc_enum_shards(&L4E), l4_shard, NULL);
     mc_parallel("L4: dotted quads over 7 octet spellings ^4, plain and as IPv6 tail", 1, l4_quads, NULL);
+    if (corpus_load()) return 2;
+    { static const int PH[] = { CP_LONGIDN, CP_ALTDOT, CP_LABELLEN, CP_MAXLIT };
+      for (unsigned i = 0; i < 4; i++) { L5PH = PH[i]; char nm5[80]; snprintf(nm5, sizeof nm5, "L5: %.60s", corpus_name(L5PH)); mc_parallel(nm5, corpus_shards(L5PH), l5_shard, NULL); } }
     int N = mc_thorough ? 8 : 6;
     memset(&L1E, 0, sizeof L1E); L1E.A = SIGC; L1E.nA = NSIGC; L1E.N = N; L1E.k = 3; L1E.fn = l1_cb;
     char nm[96]; snprintf(nm, sizeof nm, "L1: all strings of <= %d tokens over {a . @ [ ] \" \\ SP 1 : - U+0416}", N);
